@@ -104,6 +104,13 @@ impl Report {
     }
     pub fn violation(&mut self, signature: impl Into<String>, case_id: impl Into<String>, detail: J) {
         let signature: String = signature.into();
+        if let Ok(path) = std::env::var("QV_DUMP") {
+            use std::io::Write;
+            if let Ok(mut f) = std::fs::OpenOptions::new().create(true).append(true).open(path) {
+                let line = format!("{}\t{}\n", signature, detail);
+                let _ = f.write_all(line.as_bytes());
+            }
+        }
         let e = self.violations.entry(signature.clone()).or_insert((0, vec![]));
         e.0 += 1;
         if e.1.len() < 4 {
